@@ -2,7 +2,7 @@
 """seeded/RESULTS.md from the matrix runs (.build/matrix*.tsv; later files override earlier rows)."""
 import json, glob, os
 rows = {}
-for fn in ["/verif/.build/matrix.tsv", "/verif/.build/matrix_r2.tsv", "/verif/.build/matrix_r3.tsv", "/verif/.build/matrix_r4.tsv", "/verif/.build/matrix_r5a.tsv", "/verif/.build/matrix_r5b.tsv", "/verif/.build/matrix_r5c.tsv", "/verif/.build/matrix_r6a.tsv", "/verif/.build/matrix_r6b.tsv", "/verif/.build/matrix_r7a.tsv", "/verif/.build/matrix_r8a.tsv", "/verif/.build/matrix_r9a.tsv"]:
+for fn in ["/verif/.build/matrix.tsv", "/verif/.build/matrix_r2.tsv", "/verif/.build/matrix_r3.tsv", "/verif/.build/matrix_r4.tsv", "/verif/.build/matrix_r5a.tsv", "/verif/.build/matrix_r5b.tsv", "/verif/.build/matrix_r5c.tsv", "/verif/.build/matrix_r6a.tsv", "/verif/.build/matrix_r6b.tsv", "/verif/.build/matrix_r7a.tsv", "/verif/.build/matrix_r8a.tsv", "/verif/.build/matrix_r9a.tsv", "/verif/.build/matrix_r10a.tsv", "/verif/.build/matrix_r10b.tsv", "/verif/.build/matrix_r10c.tsv"]:
     if not os.path.exists(fn):
         continue
     for l in open(fn):
